@@ -47,7 +47,9 @@ def cases(ctx):
         yield rounds_case(rng, "nv" if rng.random() < 0.25 else "generic")
     for _ in range(ctx.n(140, 20000)):
         g = HostGen(rng, max_depth=rng.choice([2, 3]), allow_regs=False)
-        g.templates = rng.choice([["t0"], ["t0", "t1"], ["t0", "t1", "angle"]])
+        # (template names are the application's choice: also names the SDK itself uses for the branch labels of loops and ifs)
+        g.templates = rng.choice([["t0"], ["t0", "t1"], ["t0", "t1", "angle"], ["LOOP", "IF_EXIT", "LOOP_EXIT"], ["IF_EXIT1", "LOOP1", "t0"],
+                                  ["WHILE", "WHILE_EXIT", "LOOP_EXIT1"]])
         g.p_cond_regmeas = 0.0
         hw = "nv" if rng.random() < 0.3 else "generic"
         if hw == "nv":
